@@ -40,6 +40,22 @@ func (obj *vectorSparseIndex) indexDelete(i int) {
   obj.AvlTree.Delete(i)
 }
 
+// Remove all keys. The nodes are flagged as deleted so that an iterator
+// positioned on one of them re-locates itself in the keys inserted
+// afterwards instead of walking the abandoned tree
+func (obj *vectorSparseIndex) indexClear() {
+  var clear func(node *AvlNode)
+  clear = func(node *AvlNode) {
+    if node != nil {
+      clear(node.Left)
+      clear(node.Right)
+      node.Deleted = true
+    }
+  }
+  clear(obj.AvlTree.Root)
+  obj.AvlTree.Root = nil
+}
+
 func (obj *vectorSparseIndex) indexIterator() vectorSparseIndexIterator {
   return vectorSparseIndexIterator{*obj.AvlTree.Iterator()}
 }
